@@ -44,9 +44,37 @@ def run(ctx, report):
         "final": ("R-E2E", "3", "a final caption that is never cleared lasts four seconds"),
         "offset": ("R-E2E", "1", "the configured offset (seconds) is subtracted"),
     })
+    report.section("a command repeated seconds later", repeated_later, ctx, report)
     report.not_decided += ["ordering of returned captions and start <= end for arbitrary streams",
                            "which captions a given stream yields (decoder state machine runs)"]
     report.assume("IEEE-754: the float products in _translate_time are within one ulp of the exact form")
+
+
+def repeated_later(ctx, report):
+    """The redundancy copy of a control code is the SAME word sent again in the NEXT frame.  An End Of Caption sent alone on a
+    later time-code line - seconds after a line that ended with an End Of Caption - is a new command: it swaps the (empty)
+    non-displayed memory in, so the displayed caption disappears at that instant."""
+    from . import scc_e2e_fold as E2
+    C = E2.C
+    eng = E2.Engine(ctx)
+    report.covered(eng.fn)
+    bad = []
+    for d, drop in ((1, False), (1, True), (2, False)):
+        la = [C.CONTROL["RCL"]] * d + [C.CONTROL["ENM"]] * d + [E2.pac(15, 0)] * d + E2.text_words("FIRST")
+        lines = ["Scenarist_SCC V1.0", "", f"{E2.tc(1, 0, drop)}\t" + " ".join(la + [C.CONTROL["EOC"]] * d), "",
+                 f"{E2.tc(3, 0, drop)}\t" + " ".join([C.CONTROL["EOC"]] * d), "",
+                 f"{E2.tc(12, 0, drop)}\t" + " ".join(la + [C.CONTROL["EOC"]] * d), "",
+                 f"{E2.tc(15, 0, drop)}\t" + " ".join([C.CONTROL["EDM"]] * d), ""]
+        got = eng.read("\n".join(lines))
+        want_end = E2.instant(3, 0, 0, drop)
+        if isinstance(got, tuple):
+            bad.append({"codes": "doubled" if d == 2 else "single", "raises": f"{got[1]}: {got[3]}"[:120]})
+        elif not got or abs(got[0]["end"] - want_end) > 0.01:
+            bad.append({"codes": "doubled" if d == 2 else "single", "timecode": "drop-frame" if drop else "non-drop",
+                        "first_caption": (got[0]["start"], got[0]["end"]) if got else None, "required_end": want_end,
+                        "stream": "\n".join(lines[2:])[:200]})
+    report.check(not bad, "R-E2E", eng.fn, "an End Of Caption sent alone on a later line ends the displayed caption at that instant",
+                 {"mismatches": bad[:3]}, "3")
 
 
 def timecode(ctx, report, folder):
